@@ -238,6 +238,21 @@ Theorem unflatten_rejects_unterminated t bytes :
   inv t -> lenN bytes < LIM -> nulfree bytes -> unflatten1 t bytes = (StErr, t).
 Proof. intros It B F. now apply (proj1 (unflatten_spec t bytes It B)). Qed.
 
+(* F9, the domain boundary: a String holding an embedded NUL (only obtainable through += char(0) or a write through
+   operator[]) flattens Length()+1 bytes and parses back truncated at the first NUL *)
+Theorem nul_string_truncates s t a b :
+  inv s -> abs s = a ++ 0 :: b -> nulfree a -> slen s + 1 < LIM -> inv t ->
+  flatten1 s = abs s ++ [0] /\
+  exists t', unflatten1 t (flatten1 s) = (StOk, t') /\ abs t' = a.
+Proof.
+  intros I E Fa B It. rewrite (flatten_spec s I). split; [reflexivity|].
+  destruct (unflatten_spec t (abs s ++ [0]) It) as (_ & U2).
+  { rewrite lenN_app, lenN_cons, lenN_nil, (lenN_abs s I). lia. }
+  destruct U2 as (t' & Et & I' & A').
+  { intros X. apply nulfree_app in X. destruct X as [_ X]. inversion X. congruence. }
+  exists t'. split; trivial. rewrite A', E, <- app_assoc. cbn [app]. now apply cstr_nulfree_app.
+Qed.
+
 (* Prealloc and ShrinkToFit never change the value, for every argument (no size premise) *)
 Theorem prealloc_value_safe s n : inv s -> inv (snd (prealloc s n)) /\ abs (snd (prealloc s n)) = abs s.
 Proof. apply prealloc_safe. Qed.
@@ -297,6 +312,7 @@ Definition c17_storage_irrelevant jk := storage_irrelevant cM cTH cPG cOV jk cM_
 Definition c17_alias_eq jk := alias_eq cM cTH cPG cOV jk cM_pos cTH_ge cPG_pos cPG_le cOV_lt cM_le.
 Definition c17_flatten_roundtrip jk := flatten_roundtrip cM cTH cPG cOV jk cM_pos cTH_ge cPG_pos cPG_le cOV_lt cM_le.
 Definition c17_unflatten_rejects jk := unflatten_rejects_unterminated cM cTH cPG cOV jk cM_pos cTH_ge cPG_pos cPG_le cOV_lt cM_le.
+Definition c17_nul_string_truncates jk := nul_string_truncates cM cTH cPG cOV jk cM_pos cTH_ge cPG_pos cPG_le cOV_lt cM_le.
 Definition c17_prealloc_value_safe jk := prealloc_value_safe cM cTH cPG cOV jk cM_pos cTH_ge cPG_pos cPG_le cOV_lt cM_le.
 Definition c17_shrink_value_safe jk := shrink_value_safe cM cTH cPG cOV jk cM_pos cTH_ge cPG_pos cPG_le cOV_lt cM_le.
 
